@@ -222,11 +222,12 @@ func (m *clientHelloMsg) marshal() []byte {
 			if m.extendedRandomEnabled {
 				b.AddUint16(extensionExtendedRandom)
 				b.AddUint16LengthPrefixed(func(b *cryptobyte.Builder) {
-					exLen := len(m.extendedRandom)
-					fullLength := 2 + exLen
-					b.AddUint16(uint16(fullLength))
-					b.AddUint16(uint16(exLen))
-					b.AddBytes(m.extendedRandom)
+					// extension_data = opaque extended_random_value<0..2^16-1>
+					// (draft-rescorla-tls-extended-random); the extension's own
+					// length is written by the enclosing length prefix.
+					b.AddUint16LengthPrefixed(func(b *cryptobyte.Builder) {
+						b.AddBytes(m.extendedRandom)
+					})
 				})
 			}
 			if m.extendedMasterSecret {
